@@ -708,11 +708,6 @@ func init() {
 		if out.RT != "" {
 			return out, nil
 		}
-		// a second print gives the same text
-		if s2 := got.String(); s2 != s {
-			out.RT = "second print differs: " + s2
-			return out, nil
-		}
 		unit, err := parse.Unit(strings.NewReader(s + "\n" + s))
 		if err != nil {
 			out.RT = "parse.Unit: " + err.Error()
